@@ -39,6 +39,7 @@ impl FecEncoder for RaptorEncoder {
 
 pub struct RaptorDecoder {
     source_block_size: usize,
+    symbol_size: usize,
     decoder: raptor_code::SourceBlockDecoder,
     data: Option<Vec<u8>>,
 }
@@ -53,6 +54,11 @@ impl RaptorDecoder {
         RaptorDecoder {
             decoder: raptor_code::SourceBlockDecoder::new(nb_source_symbols),
             source_block_size,
+            // Size of the symbols used by the decoder to rebuild the source block
+            symbol_size: match nb_source_symbols {
+                0 => 0,
+                k => source_block_size.div_ceil(k),
+            },
             data: None,
         }
     }
@@ -69,6 +75,14 @@ impl FecDecoder for RaptorDecoder {
             encoding_symbol.len(),
             self.source_block_size
         );
+
+        if encoding_symbol.len() < self.symbol_size {
+            // The decoder slices the decoded symbols with the symbol size,
+            // a shorter symbol (truncated pkt ?) is padded with 0
+            let mut symbol = encoding_symbol.to_vec();
+            symbol.resize(self.symbol_size, 0);
+            return self.decoder.push_encoding_symbol(&symbol, esi);
+        }
 
         self.decoder.push_encoding_symbol(encoding_symbol, esi)
     }
